@@ -138,6 +138,10 @@ def bounded(params):
                         if not ok and len(failures) < 5:
                             failures.append({"input": {"ref": ref.tolist(), "pred": pred.tolist(), "kind": kind, "r": r, "p": p, "dtype": dtype},
                                              "problems": [f"{kind}={got} expected {want}"], "replay_kind": "c06.e2e"})
+    ll = longlists({})
+    evals += 1
+    for pb in ll["problems"][:2]:
+        failures.append({"input": {"case": "long prediction-label list"}, "problems": [pb], "replay_kind": "c06.longlists"})
     return {"evaluations": evals, "distinct_nontrivial": nontriv, "failures": failures,
             "rule": "pairs of label arrays over {0,1,2} of shape (4,),(2,2) [thorough: (5,),(2,3),(2,2,2), two dtypes] x {DSC,IOU,RVD} x {no selection, int label, label list, absent label}; non-trivial = both selected sets non-empty",
             "bound": "<= 8 voxels, 3 labels; quick 400 seeded pairs per shape"}
@@ -174,3 +178,32 @@ def cldice(params):
             if not abs(got - want) <= 1e-9:
                 bad.append(f"clDice {X.ndim}-D ({form}) = {got}, harmonic mean of skeleton coverage = {want}")
     return {"violated": bool(bad), "problems": bad}
+
+
+def longlists(params):
+    """label selection with a LONG list of prediction labels (one reference matched to many fragments), incl. a far-away absent label
+    and float-typed label maps: the selected voxels must be exactly those whose label is in the list"""
+    rng = np.random.RandomState(2)
+    bad = []
+    for kind in (params.get("kind", "DSC"), "IOU"):
+        for dt in (np.uint16, np.int32, np.float64):
+            for n_lab in (8, 30, 60):
+                arr = np.zeros((6, 40), dt)
+                ref = np.zeros((6, 40), dt)
+                ref[1:5, 2:38] = 1
+                for l in range(2, 2 + n_lab):
+                    c = (l * 7) % 36
+                    arr[rng.randint(0, 6), c:c + 2] = l
+                arr[0, 0] = 3000  # a label that is NOT in the list
+                arr[5, 39] = 1
+                labels = list(range(2, 2 + n_lab)) + [100000]
+                X, Y = SM.vox(ref == 1), SM.vox(np.isin(arr, labels))
+                want = _spec(kind, X, Y)
+                try:
+                    got = _call(kind, ref, arr, 1, labels)
+                except Exception as e:
+                    bad.append(f"{kind} {np.dtype(dt).name} {n_lab} labels: raised {type(e).__name__}: {e}"[:160])
+                    continue
+                if not _close(got, want):
+                    bad.append(f"{kind} on {np.dtype(dt).name} maps with a list of {len(labels)} prediction labels: {got} expected {want}")
+    return {"violated": bool(bad), "problems": bad[:4]}
